@@ -28,9 +28,19 @@ func c19Baselines() []c19Baseline {
 	coldFail.DialFails = 2
 	withU := cold
 	withU.Untrusted = 1
+	burst := cold
+	burst.Burst = 104
+	burstU := burst
+	burstU.Untrusted = 1
 	env := []string{"stop", "drop", "reset"}
 	sched := []string{"stall:150", "stall:600", "switch:0", "switch:1"}
 	return []c19Baseline{
+		{"tx burst that fills the unconfirmed-tx channel (more txs relayed back to back than it buffers); Stop / connection loss at every point", histParams{Prop: "C19", Cfg: burst, Boot: "synced", Tx: true},
+			[]string{"burst:T", "tick:250"}, []string{"stop", "drop"}},
+		{"the same burst relayed by the trusted and an untrusted peer at the same time (two producers on the full channel); Stop at every point", histParams{Prop: "C19", Cfg: burstU, Boot: "synced", Tx: true},
+			[]string{"multi:burst:T|burst:U1", "tick:250"}, []string{"stop"}},
+		{"the application's output fetcher fails while a block with a new relevant tx is processed; Stop at every point and at the end", histParams{Prop: "C19", Cfg: cold, Boot: "synced", Tx: true},
+			[]string{"ffail", "mine:R1", "ans", "tick:250", "tick:250", "ext:1", "ans", "tick:250", "astop", "tick:100"}, []string{"stop"}},
 		{"cold start: connect, handshake, header sync, block download, in sync, tx traffic, block with a relevant tx", histParams{Prop: "C19", Cfg: cold, Boot: "cold", Tx: true},
 			[]string{"settle", "tx:T:R1", "tick:250", "mine:R1", "ans", "tick:250", "ext:2", "settle", "tick:2300"}, env},
 		{"trusted peer refuses the first two dials (waiting to reconnect)", histParams{Prop: "C19", Cfg: coldFail, Boot: "cold", Tx: true},
